@@ -106,9 +106,11 @@ Lemma gval_eq_slice xs ys : gval_eq (GVSlice xs) (GVSlice ys) = glist_eq xs ys.
 Proof. reflexivity. Qed.
 
 Section EqSim.
+Variable d : dialect.
 Variable ctor_ok : string -> string -> bool -> Prop.
+
 Variable gfuncs : list (var * (list var * list gstmt)).
-Notation vrel := (vrel ctor_ok gfuncs).
+Notation vrel := (vrel d ctor_ok gfuncs).
 
 Definition eq_ok (va:val) : Prop :=
   forall vb ga gb r, vrel va ga -> vrel vb gb -> val_eq va vb = Some r -> gval_eq ga gb = Some r.
